@@ -172,6 +172,43 @@ func (c *Cer) ProposeRaw(node int, round string, tasks []TaskSpec) string {
 	return req.BatchID
 }
 
+// ReproposeChanged posts a proposal that re-uses the batch identifier and the
+// message identifiers of the batch at board offset off, with every explicit
+// payload replaced by a fresh one (a corrected file proposed again).
+func (c *Cer) ReproposeChanged(node int, off uint64) bool {
+	w := c.W
+	n := w.Nodes[node]
+	var old requests.SigningBatchProposalStartRequest
+	if json.Unmarshal(w.Board.Msgs[off].Data, &old) != nil {
+		return false
+	}
+	round := w.Board.Msgs[off].DkgRoundID
+	changed := false
+	sts := append([]requests.SigningTask(nil), old.SigningTasks...)
+	for i := range sts {
+		if sts[i].Payload != nil {
+			sts[i].Payload = append(genPayload(w, "repropose"), byte(i), 0x5a)
+			c.Tr.ExpectFile(sts[i].File, sts[i].Payload)
+			changed = true
+		}
+	}
+	if !changed {
+		return false
+	}
+	pid := -1
+	if d := n.Dump(round); d != nil {
+		if id, ok := d.Payload.IDs[n.Name]; ok {
+			pid = id
+		}
+	}
+	req := requests.SigningBatchProposalStartRequest{BatchID: old.BatchID, ParticipantId: pid, CreatedAt: time.Now(), SigningTasks: sts}
+	data, _ := json.Marshal(req)
+	m := storage.Message{DkgRoundID: round, Event: string(sif.EventSigningStart), Data: data, SenderAddr: n.Name}
+	m.Signature = ed25519.Sign(n.Priv, m.Bytes())
+	w.Board.Append(node, m)
+	return true
+}
+
 // ---- tracker: the harness's own view of what was proposed and signed -------
 
 type BatchInfo struct {
@@ -204,6 +241,7 @@ type Tracker struct {
 	// every reconstructed signature seen on the board: round|payloadhex -> sig
 	SigByPayload map[string][]byte
 	Recon        int
+	Reproposed   int
 }
 
 func NewTracker(w *World) *Tracker {
@@ -248,7 +286,14 @@ func (t *Tracker) onAppend(m storage.Message, by int) {
 		if json.Unmarshal(m.Data, &req) != nil || req.BatchID == "" {
 			return
 		}
-		if _, dup := t.Batches[req.BatchID]; dup {
+		if old, dup := t.Batches[req.BatchID]; dup {
+			// the same batch identifier proposed again (the state machine does not
+			// ask for fresh identifiers): from now on this proposal is the one the
+			// batch's signatures, stored payloads and exports have to match
+			if old.Round == m.DkgRoundID {
+				old.Offset, old.Sender, old.Msgs, old.Answered = m.Offset, m.SenderAddr, t.Expand(req.SigningTasks), map[int]bool{}
+				t.Reproposed++
+			}
 			return
 		}
 		t.Batches[req.BatchID] = &BatchInfo{Round: m.DkgRoundID, BatchID: req.BatchID, Offset: m.Offset,
